@@ -96,7 +96,7 @@ def post(ctx, rows, res, bindir):
     jobs = []
     stats = {"programs": 0, "renames_run": 0, "skipped_known_class_binders": 0, "original_ok": 0, "original_rejected": 0}
     # spec column per case id (the driver lists the binders whose ranges drifted)
-    lim = 150 if ctx.tier == "thorough" else 8
+    lim = 100 if ctx.tier == "thorough" else 8
     # scratch inside the harness' target directory (nothing outside /verif / the scratch root is needed)
     tbase = os.path.join(core.harness_dir("harness-els"), "target", "scratch")
     os.makedirs(tbase, exist_ok=True)
@@ -218,7 +218,7 @@ def run(ctx):
                        "request per name token (+ one at the true position when the lexer's column differs); non-trivial = an edit set of >= 3 sites")
     ctx.assumptions = ["single-file programs, ASCII", "new name zz9 is fresh by construction",
                        "the client touches the file and sends didSave after each rename (the server clears the module cache on rename)"]
-    core.standard_check(ctx, harness_bin="c30", kind="harness-els", n_quick=10, n_thorough=150, nontrivial=nontrivial, post=post,
+    core.standard_check(ctx, harness_bin="c30", kind="harness-els", n_quick=10, n_thorough=100, nontrivial=nontrivial, post=post,
                         trusted=["generator's rendering of the mini-language to Erg text (token positions)",
                                  "real lexer's token columns enter the model as facts (rcol); the spec compares with true columns"])
 
